@@ -444,7 +444,7 @@ func ruleAnyGate(c *Ctx) []Obligation {
 								return true
 							}
 							for _, a := range call.Args[:2] {
-								if !isFnParamType(pi, a) {
+								if !isFnParamTypeIn(pi, fd, a) {
 									bad = "the tolerant options are used for `" + exprStr(a) + "`, which is not the type of a function parameter (" + c.Pos(call.Pos()) + ")"
 								}
 							}
@@ -542,7 +542,29 @@ func noneGuarded(p *packages.Package, fd *ast.FuncDecl, pos token.Pos) bool {
 // isFnParamType: e is `p.Type` (or a call on it such as p.Type.SetSpan(..)) where p is an element of a function type's
 // parameter list (a struct that is the element type of a slice field of a function-parameter description).
 func isFnParamType(info *types.Info, e ast.Expr) bool {
+	return isFnParamTypeIn(info, nil, e)
+}
+
+func isFnParamTypeIn(info *types.Info, fd *ast.FuncDecl, e ast.Expr) bool {
 	e = ast.Unparen(e)
+	// the value variable of a range over a parameter type list
+	if id, ok := e.(*ast.Ident); ok && fd != nil {
+		obj := info.Uses[id]
+		found := false
+		ast.Inspect(fd.Body, func(n ast.Node) bool {
+			if rs, ok := n.(*ast.RangeStmt); ok && rs.Value != nil {
+				if vid, ok := rs.Value.(*ast.Ident); ok && info.Defs[vid] == obj && obj != nil {
+					if isFnParamTypeIn(info, nil, &ast.IndexExpr{X: rs.X, Index: rs.X}) {
+						found = true
+					}
+				}
+			}
+			return true
+		})
+		if found {
+			return true
+		}
+	}
 	for {
 		if call, ok := e.(*ast.CallExpr); ok {
 			if sel, ok := call.Fun.(*ast.SelectorExpr); ok {
@@ -551,6 +573,20 @@ func isFnParamType(info *types.Info, e ast.Expr) bool {
 			}
 		}
 		break
+	}
+	// an element of a type list of a parameter description: P.ParamTypes[i], P.RemainingType
+	{
+		x := e
+		if ix, ok := x.(*ast.IndexExpr); ok {
+			x = ast.Unparen(ix.X)
+		}
+		if fs, ok := x.(*ast.SelectorExpr); ok {
+			if nm := recvNamed(derefT(info.TypeOf(fs.X))); nm != nil && strings.Contains(nm.Obj().Name(), "Param") {
+				if _, isStruct := nm.Underlying().(*types.Struct); isStruct {
+					return true
+				}
+			}
+		}
 	}
 	sel, ok := e.(*ast.SelectorExpr)
 	if !ok {
@@ -600,4 +636,14 @@ func isFnParamType(info *types.Info, e ast.Expr) bool {
 		}
 	}
 	return false
+}
+
+func derefT(t types.Type) types.Type {
+	if t == nil {
+		return nil
+	}
+	if p, ok := t.(*types.Pointer); ok {
+		return p.Elem()
+	}
+	return t
 }
